@@ -218,7 +218,7 @@ fn supervise(args: &[String]) -> ! {
                 "coverage": { "evaluations": 0, "distinct_nontrivial": 0, "rule": "the check process was killed by a crash inside a case; see explanation", "samples": [note.clone()], "explanation": note },
                 "assumptions": [], "wall_s": started.elapsed().as_secs_f64(), "violations": violations,
             });
-            let _ = std::fs::write(verif_dir().join("evidence").join(format!("{id}.json")), serde_json::to_string_pretty(&evidence).unwrap());
+            let _ = std::fs::write(verif_dir().join("evidence").join(format!("{id}{}.json", std::env::var("RMV_EVIDENCE_SUFFIX").unwrap_or_default())), serde_json::to_string_pretty(&evidence).unwrap());
             std::process::exit(exit);
         },
     }
